@@ -193,13 +193,45 @@ func vC06UnicodeUnits(name string) (unicodeString, []uint16) {
 	return unicodeString(buf), units
 }
 
-// String.prototype.trim/trimStart/trimEnd compute newStringValue(strings.Trim*(s.String(), ws)); on a
-// string without leading/trailing white space the result must be the string itself.
+// String.prototype.trim/trimStart/trimEnd (trimString, builtin_string.go): works on UTF-16 code units;
+// the result has exactly the units of the input minus leading/trailing ECMAScript white space, lone
+// surrogates included (before the fix of F-C06-trim-loses-lone-surrogates it went through a UTF-8 string).
+func refC06IsWS(u uint16) bool {
+	switch u {
+	case 0x20, 0x0C, 0x0A, 0x0D, 0x09, 0x0B, 0xA0, 0x1680, 0x2028, 0x2029, 0x202F, 0x205F, 0x3000, 0xFEFF:
+		return true
+	}
+	return u >= 0x2000 && u <= 0x200A
+}
+
+func vC06StubContainsRune(s string, r rune) bool {
+	found := false
+	for _, c := range s {
+		if c == r {
+			found = true
+		}
+	}
+	return found
+}
+
 func H_C06_utf8Detour() {
 	u, units := vC06UnicodeUnits("u")
-	back := newStringValue(u.String())
-	vAssertK("trim-kernel:newStringValue(s.String())==s", vC06Content(back, units),
-		vC06HasLoneSurrogate(units), "F-C06-trim-loses-lone-surrogates")
+	left := vChoice("trim.left", 2) == 1
+	right := vChoice("trim.right", 2) == 1
+	got := trimString(u, left, right)
+	// reference on units
+	start, end := 0, len(units)
+	if left {
+		for start < end && refC06IsWS(units[start]) {
+			start++
+		}
+	}
+	if right {
+		for end > start && refC06IsWS(units[end-1]) {
+			end--
+		}
+	}
+	vAssert("trim:units==reference", vC06Content(got, units[start:end]))
 }
 
 // symbolic-mode model of the x/text caser: identity. The harness restricts inputs to code units that
